@@ -108,10 +108,14 @@ class Fn:
             if b["k"] == "call":
                 yield i, b
 
-    def call_blocks(self, pat, cleanup=False):
+    def call_blocks(self, pat, cleanup=False, wrappers=False):
+        """blocks calling a function matching pat — or (wrappers=True) one of the repository's small helpers that calls
+        such a function on every path to its return (Facts.must_call)"""
         rx = re.compile(pat) if isinstance(pat, str) else pat
+        wr = _CURRENT.must_call(rx) if (wrappers and _CURRENT is not None) else ()
         return [i for i, b in enumerate(self.blocks)
-                if b["k"] == "call" and (cleanup or not b["c"]) and (rx.search(b["callee"]) or rx.search(b["decl"]))]
+                if b["k"] == "call" and (cleanup or not b["c"]) and
+                (rx.search(b["callee"]) or rx.search(b["decl"]) or (b["callee"] in wr and b["callee"] != self.name))]
 
     def events(self, kind=None, cleanup=False):
         for i, b in enumerate(self.blocks):
@@ -174,6 +178,9 @@ def split_path(n):
     return parts
 
 
+_CURRENT = None
+
+
 class Facts:
     def __init__(self, fdir, meta=None):
         self.dir = fdir
@@ -199,6 +206,50 @@ class Facts:
         self._callers = None
         self._callees = None
         self._trait_impls = None
+        self._must_call = {}
+        global _CURRENT
+        _CURRENT = self
+
+    # ---- wrappers: a call to a function that calls X on every path to its return counts as a call to X
+    def must_call(self, rx):
+        """names of the repository's own functions (small ones: helpers, not drivers) in which every normal path from the
+        entry to a return passes through a call matching rx, directly or through another such function (three rounds).
+        `Fn.call_blocks` counts a call to one of them as a call matching rx, so that extracting `x.foo()` into a private
+        helper, or calling foo through a thin wrapper, does not change what a rule sees."""
+        key = rx.pattern
+        got = self._must_call.get(key)
+        if got is not None:
+            return got
+        self._must_call[key] = frozenset()          # re-entrancy guard
+        must = set()
+        callers = self.graph()[1]
+        frontier = set()
+        for n, f in self.fns.items():
+            for b in f.blocks:
+                if b["k"] == "call" and not b["c"] and (rx.search(b["callee"]) or rx.search(b["decl"])):
+                    frontier.add(n)
+                    break
+        for _ in range(3):
+            new = set()
+            for n in frontier:
+                f = self.fns.get(n)
+                if f is None or n in must or len(f.blocks) > 120 or not re.match(r"steel(_rc|_parser)?::", n):
+                    continue
+                if rx.search(n):
+                    continue
+                via = [i for i, b in enumerate(f.blocks) if b["k"] == "call" and not b["c"] and
+                       (rx.search(b["callee"]) or rx.search(b["decl"]) or b["callee"] in must)]
+                rets = f.returns()
+                if via and rets and f.every_path_passes_from([0], rets, via)[0]:
+                    new.add(n)
+            if not new:
+                break
+            must |= new
+            frontier = set()
+            for n in new:
+                frontier |= set(callers.get(n, ()))
+        self._must_call[key] = frozenset(must)
+        return self._must_call[key]
 
     # ---- anchors
     def find(self, pat):
